@@ -37,7 +37,7 @@ func (c19) Rule() string {
 
 func (c19) Plan(tier string) []core.Segment {
 	return []core.Segment{
-		{Gen: "index", Profile: "c19-round", Count: scale(tier, 320, 20_000), Race: true, Batch: 20, Desc: "stress rounds (GOMAXPROCS alternates between 2 and 16)"},
+		{Gen: "index", Profile: "c19-round", Count: scale(tier, 1_200, 20_000), Race: true, Batch: 20, Desc: "stress rounds (GOMAXPROCS alternates between 2 and 16)"},
 	}
 }
 
